@@ -254,6 +254,10 @@ class Spec(core.PropSpec):
                 return out
         K, bs = plan["K"], plan["batch_size"]
         n_main = n - 3 if stack["container"] else n
+        if n_main <= 0:
+            out.rejected = True
+            out.ev("rejected", "empty main dataset")
+            return out
         batches = [[(b * bs + j) % n_main for j in range(bs)] for b in range(plan["n_batches"] * K)]
         if stack["container"] == "interleaved":
             batches[-1] = [n_main + j % 3 for j in range(bs)]  # one pass over the second dataset, never mixed with the first
